@@ -136,6 +136,10 @@ def gen(ctx):
         add("sm3dg %s %s" % (key, chunks_str([m[:10], b"", m[10:64], b"", m[64:]])), "sm3dg:%s:empty-chunks" % kcls)
         add("sm3dg %s ." % key, "sm3dg:%s:no-update" % kcls)
         add("sm3dg %s -" % key, "sm3dg:%s:only-empty-chunk" % kcls)
+    # --- independent contexts in 2..4 threads give the sequential results (no hidden shared state)
+    for alg, B in ALGS + DISPATCH_ONLY:
+        for T in ((2, 4) if not thorough else (2, 3, 4, 8)):
+            add("hashpar %s %d %d %d" % (alg, T, 1500 if not thorough else 6000, 3 * B + 5), "hashpar:%s:T%d" % (alg, T))
     # --- KDF: output lengths 1..100 dense, non-multiples of 32, large
     for outlen in list(range(0, 101)) + [255, 256, 257, 8160] + ([65535] if thorough else []):
         z = r.bytes(r.range(0, 80))
